@@ -1,6 +1,7 @@
 import BeyondVerif.Lemmas.Date
 import BeyondVerif.Lemmas.DateRange
 import BeyondVerif.Lemmas.EopLookup
+import BeyondVerif.Model.EopFile
 import BeyondVerif.Generated.TdbR
 
 /-!
@@ -22,7 +23,8 @@ Clauses of the property and where they are:
 * missing data policy — `eop_policy_spec`, `eop_lookup_day`
 * "as tabulated by IERS for that day" (the lookups at and between the tables' own abscissae, for every sorted table and every
   argument) — `tai_utc_lookup_spec`, `tai_utc_at_entry`, `tai_utc_between`, `tai_utc_after_last`, `tai_utc_before_first`,
-  `tai_utc_of_day`, `eop_record_of_day`, `eop_record_spec`, and on the regenerated `tai-utc.dat`: `leap_table_lookup`
+  `tai_utc_of_day`, `eop_record_of_day`, `eop_record_spec`, and on the regenerated `tai-utc.dat`: `leap_table_lookup`,
+  `leap_table_is_parsed_file`
 * arithmetic — `add_clock` (the clock reading moves by exactly t, every scale), `add_sub`, `add_sub_const_scales`,
   `add_assoc_clock`, `add_assoc_instant`
 * ordering / equality / hash — `cmp_consistent`, `eq_iff_sub_zero`, `cmp_exact_us`, `label_irrelevant`
@@ -591,6 +593,11 @@ theorem leap_table_lookup :
     (∀ e ∈ leapTable.head?, taiUtcAt leapTable (e.1 * D - 1) = none) := by
   have hs : Sorted leapTable := leap_table_facts.1
   refine ⟨hs, fun e he => taiUtcAt_at_entry hs he, by decide, by decide⟩
+
+/-- **the table the theorems are instantiated with is the parse of the file text**: `leapTable` is what the model of the
+`TaiUtc` reader (`Model/EopFile.lean`: `line.split()`, `int(float(f[4]) - 2400000.5)`, `float(f[6])`, tied to the real
+reader line by line by the correspondence op `d3ptai`) makes of the regenerated text of `tests/data/pole/tai-utc.dat` -/
+theorem leap_table_is_parsed_file : EopFile.taiTable taiUtcText = some leapTable := by decide +kernel
 
 /-- the hypotheses are satisfiable and the boundary goes to the new value: a two-entry table -/
 example : Sorted [(10, 5), (20, 6)] ∧ taiUtcAt [(10, 5), (20, 6)] (20 * D) = some 6 ∧
